@@ -10,7 +10,7 @@ TEXT["C12"] = dict(
          "against the Coq interpreter and the spec over the equivalence classes the property lists.",
     note="Tie kind A: programs are dumped from /repo via a verif-tagged accessor and the TCP generator is templated with marker configurations "
          "then re-validated. Trusted: Coq kernel, the dump/template translator, x/net/bpf VM = kernel cBPF semantics. Linking property (matcher hop => installed filter accepts): the unrestricted statement is refuted by a machine-checked witness (IPv6 hop-by-hop before ICMPv6 = the recorded known finding); "
-         "the restricted statement is PROVED: for every variant, every driver state and every frame that is not IPv6-with-hop-by-hop-first, a frame the matcher turns into a hop is accepted by the installed program (C12_filter_accepts_every_hop), and every segment the SACK handshake reader reacts to passes the SYN-ACK program. The proof goes through the decoder MODEL (gopacket modelled, validated by the correspondence); the lab re-checks the linking on the real programs and drivers.",
+         "the restricted statement is PROVED: for every variant, every driver state and every frame that is not IPv6-with-hop-by-hop-first, a frame the matcher turns into a hop is accepted by the installed program (C12_filter_accepts_every_hop), and every segment the SACK handshake reader reacts to passes the SYN-ACK program. Which filter each entry point installs (type, Src = target, Dst = local) is extracted from the source on every run (tools/goextract/filteruse.go) and equated with the model's installed_filter. The proof goes through the decoder MODEL (gopacket modelled, validated by the correspondence); the lab re-checks the linking on the real programs and drivers.",
     technique="Coq proof over a cBPF interpreter on programs regenerated from source + differential run against bpf.VM",
 )
 
@@ -21,7 +21,7 @@ TEXT["C03"] = dict(
          "parallel engine's threads. Correspondence: the real engines under a virtual clock vs the timed model (hops, accepted sequence, send log, elapsed) and the "
          "shape predicate evaluated on the implementation's own output.",
     note="Hand-written model tied by correspondence (tie kind B). Trusted: Coq kernel, harness scripted driver + synctest, extraction (cross-checked with vm_compute). "
-         "The real protocol drivers are covered by C01/C02, not here. Tie kind A as well: validateProbe is translated from the source on every run (tools/goextract/exprs.go) and proved equal to the model's valid_probe for all inputs.",
+         "The real protocol drivers are covered by C01/C02, not here. Tie kind A as well: validateProbe and clipResults (slices.IndexFunc, the re-slicings) are translated from the source on every run (tools/goextract/exprs.go) and proved equal to the model's valid_probe / clip for all inputs.",
     technique="Coq proof (list induction over accepted replies, invariant over a 2-thread transition system) + differential run of the real engines under synctest",
 )
 TEXT["C07"] = dict(
@@ -96,7 +96,7 @@ TEXT["C19"] = dict(text="Coq theorems over ALL integers: an accepted request is 
     note="PARTIAL: target literal parsing (net.SplitHostPort, netip.ParseAddr, DNS) is correspondence-only. Tie kind A as well: the TTL range check of runTracerouteOnce is translated from the source on every run and proved equal to the model's.", technique="Coq proof (arithmetic over all integers) + differential run of the real entry points over a simulated wire on the boundary grid")
 TEXT["C20"] = dict(text="Coq theorems over ALL outcomes and ALL error trees (any wrapping depth, errors.Join): sack => SACK trace or the SACK error, SYN never attempted; prefer_sack => SYN attempted iff the SACK error tree contains NotSupported, any other failure returned with every cause, SACK success kept; syn/default => SACK never invoked; "
     "SACK-unavailable = {dial failure, no SACK-permitted, ACK without SACK blocks}; e2e probes use SYN. Correspondence: real performTCPFallback on random error trees; real runTracerouteOnce against a loopback listener with synthesised handshakes and injected faults (probe kinds on the wire, connections opened).",
-    note="The classification of real SACK failures (sack_run) is validated by the real runs (kind 12), not proved from the SACK code.", technique="Coq proof (induction-free case analysis over outcome/error-tree predicates) + differential run of the real selector and the real TCP entry point")
+    note="The classification of real SACK failures (sack_run) is validated by the real runs (kind 12), not proved from the SACK code. Tie kind A as well: performTCPFallback is translated from the source on every run (tools/goextract/fallback.go) into a program over the three implementations and proved to evaluate to the model's perform for every method and every outcome.", technique="Coq proof (induction-free case analysis over outcome/error-tree predicates) + differential run of the real selector and the real TCP entry point")
 
 TEXT["C11"] = dict(text="Coq theorems: IP-ID blocks from ANY allocation sequence and ANY 32-bit counter value share no identifier while <= 65536 are live (incl. both wrap-arounds); n <= 65536 consecutive echo ids are distinct; a packet can be a genuine reply for two ICMP runs only if their echo ids are equal, "
     "for two UDP/TCP/SACK runs only if they probe the same target endpoint and (direct replies / strict checking) use the same local endpoint. With C01 (hop => genuine) replies to one run's probes cannot become another run's hops unless identifiers collide: on raw bytes a reply that is genuine for run B is never a hop for run A (foreign_*_reply_is_noise), and on the engine level, for ANY interleaving of own and foreign packets, nothing foreign enters the result and every own reply readable by the deadline is accepted (shared_wire_isolation). "
